@@ -104,6 +104,13 @@ C02_Step ==
               m.type = "aol.AddRecord" =>
                  /\ <<m.owner, m.topic, m.writer>> \in WritersBefore(act'.tx.msgs, i, DOMAIN aolWriters)
                  /\ Authorised(act'.tx, m.writer, m.type)
+    \* adding and removing take effect immediately: after an accepted transaction every writer entry it names is listed exactly if its last
+    \* add/delete-writer message for that entry was an add
+    /\ DeliverOk(act') =>
+          LET final == WritersBefore(act'.tx.msgs, Len(act'.tx.msgs) + 1, DOMAIN aolWriters) IN
+          \A i \in MsgIdx(act') : LET m == act'.tx.msgs[i] IN
+              m.type \in {"aol.AddWriter", "aol.DeleteWriter"} =>
+                  ((<<m.owner, m.topic, m.writer>> \in DOMAIN aolWriters') <=> (<<m.owner, m.topic, m.writer>> \in final))
     \* the writer list changes only through add/delete-writer messages authorised by the topic's owner
     /\ \A k \in (DOMAIN aolWriters \cup DOMAIN aolWriters') :
           (k \notin DOMAIN aolWriters \/ k \notin DOMAIN aolWriters' \/ aolWriters'[k] # aolWriters[k]) =>
